@@ -25,10 +25,16 @@ def _run_job(job):
     idx, sysname, cfg, props, tier = job
     try:
         system = registry.get_system(sysname)
+        findings = load_findings()
+
+        def known(v):
+            f = match_finding(findings, props[0], sysname, v.to_json())
+            return f["id"] if f else None
+
         if hasattr(system, "run"):
             res = system.run(cfg, props, tier)
         else:
-            res = engine.explore(system, cfg, props)
+            res = engine.explore(system, cfg, props, known=known)
         return idx, res.to_json(), None
     except engine.HarnessError as exc:
         return idx, None, f"{exc}"
@@ -166,6 +172,9 @@ def main(argv=None):
     known_seen = {}
     new_viol = []
     for job, r in zip(jobs, results):
+        for fid, ent in r.get("known", {}).items():
+            f = next(x for x in findings if x["id"] == fid)
+            known_seen.setdefault(fid, [f, 0])[1] += ent["count"]
         for item in r["violations"]:
             vj = item["violation"]
             if vj["property"] != prop:
